@@ -92,11 +92,12 @@ PROPS["C11"] = {
     "level": "proof",
     "technique": "Verus contracts on the real encoders/decoders extracted verbatim (Coin::coin_id, u64_to_bytes, clvm_bytes_len, sanitize_uint, clvmr u64_from_bytes) against one spec canon(v); Kani complete proofs over all u64/i64 on the compiled crates",
     "level_text": "Deductive proof: every u64 ladder in the repository equals canon(v) (minimal big-endian two's complement), sanitize_uint classifies every atom exactly as the rule says and accepts only canon(v); canon is injective and decodes back to v. Kani proves u64_to_bytes and clvm-traits encode/decode over all 2^64 inputs on the compiled code.",
-    "level_note": "Assumed: to_be_bytes / slicing / Vec::extend shims (each cross-checked by the Kani harnesses on unrewritten code), Sha256 as a byte accumulator over an uninterpreted sha256, clvmr Allocator accessor contracts. encode_number/decode_number are decided by Kani for 64-bit widths (complete), wider widths not covered.",
+    "level_note": "Assumed: to_be_bytes / slicing / Vec::extend shims (each cross-checked by the Kani harnesses on unrewritten code), Sha256 as a byte accumulator over an uninterpreted sha256, clvmr Allocator accessor contracts. encode_number/decode_number are decided by Kani for 64-bit widths (complete): round trip over all u64 / i64, and faithfulness of the decoder over every atom of at most 10 bytes (it returns exactly the value the atom denotes and refuses exactly the atoms outside the target range; also at 32 bits signed); wider widths not covered.",
     "components": [
         V("int_encoders"),
-        K("kani_int_encoders", ["u64_to_bytes_is_canon", "encode_number_u64_is_canon", "decode_encode_u64_roundtrip", "decode_encode_i64_roundtrip"],
-          True, "complete: all 2^64 inputs, loops bounded by operand width (unwind 11, unwinding assertions on)"),
+        K("kani_int_encoders", ["u64_to_bytes_is_canon", "encode_number_u64_is_canon", "decode_encode_u64_roundtrip", "decode_encode_i64_roundtrip",
+                                "decode_number_i64_is_faithful", "decode_number_u64_is_faithful", "decode_number_i32_is_faithful"],
+          True, "complete: all 2^64 inputs resp. every atom of at most 10 (6) bytes, loops bounded by operand width (unwind 11/12, unwinding assertions on)"),
     ],
     "assumptions": [
         "shim contracts: u64::to_be_bytes == be8, array/slice range indexing == subrange, Vec::extend == concatenation",
@@ -196,7 +197,7 @@ PROPS["C17"] = {
     "technique": "Verus contracts on the real tree_hash_atom/tree_hash_pair and the iterative tree_hash stack machine (extracted verbatim) against the recursive definition th(); tree_hash_cached with the TreeCache invariant; curry_tree_hash / curry_and_treehash against the tree hash of the curried program (unit curry); exhaustive native evaluation of the 24 precomputed small-atom hashes",
     "level_text": "Deductive proof for every allocator tree (any depth/width/sharing, since th is a function of the abstract tree): tree_hash returns sha256(1‖atom) / sha256(2‖th l‖th r) recursively, never underflows its stacks and terminates (measure 2*size). The small-atom shortcut is sound because the 24 table constants are recomputed exhaustively.",
     "level_note": "Assumed: Sha256 ghost model over an uninterpreted sha256; clvmr Allocator::node contract. tree_hash_cached with the TreeCache invariant (every memoised hash is the tree hash of its node, for any call history) is proved in unit tree_hash; curry_tree_hash and fast_forward's curry_and_treehash / curry_single_arg are proved in unit curry against the tree hash of the curried program (a (q . program) (c (q . arg) ... 1)); tree_hash_from_bytes is the composition of an assumed decoder and tree_hash_cached.",
-    "components": [V("tree_hash"), N("native_tree_hash_precomputed", "tree_hash_precomputed"), V("curry"), V("tree_hash_bytes")],
+    "components": [V("tree_hash"), N("native_tree_hash_precomputed", "tree_hash_precomputed"), V("curry"), V("tree_hash_bytes"), N("native_tree_hash_ground", "tree_hash_ground")],
     "assumptions": ["Sha256 ghost model, sha256 uninterpreted", "clvmr Allocator::node / atom contracts (shims/clvmr.rs)"],
     "not_covered": [
         "tree_hash_from_bytes is proved (unit tree_hash_bytes) to be the tree hash of whatever node_from_bytes_backrefs decodes, and an error exactly when that fails; the decoder itself (clvmr) is an assumed deterministic collaborator",
